@@ -957,11 +957,15 @@ def verify_hyperparameters(input_keypoints=None,
       raise ValueError("PWLCalibrator weights must have shape: [k, units] where"
                        " k > 1. It is: " + str(weights_shape))
 
-  if lengths is not None and not tf.is_tensor(lengths):
-    if not all(
-        isinstance(length, numbers.Real) and length > 0 for length in lengths):
+  if lengths is not None:
+    # Values of a constant tensor are known and can be verified as well.
+    static_lengths = (
+        tf.get_static_value(lengths) if tf.is_tensor(lengths) else lengths)
+    if static_lengths is not None and not all(
+        isinstance(length, numbers.Real) and length > 0
+        for length in static_lengths):
       raise ValueError("Lengths of pieces must be positive. They are: %s" %
-                       (lengths,))
+                       (static_lengths,))
 
   if lengths is not None and weights_shape is not None:
     if tf.is_tensor(lengths):
